@@ -105,6 +105,10 @@ def step_of(pkt, cfg, h, tun):
 def gen_graph_scripts(work, seed, tier):
     r, nodes, roots, edges = model_graph(work)
     cover, paths, succ = forceable_cover(nodes, roots, edges)
+    reached = {c[1].strip('"') for c in paths}
+    missing = {"init", "hs", "created", "authorized", "channel", "opened", "ended"} - reached
+    if missing:
+        raise HarnessError("the forceable cover of the Tunnel state graph does not reach the phases %s: the generated scripts would be shallow" % sorted(missing))
     rng = random.Random(seed)
     allpk = sorted({a for c in succ for a in succ[c]})
     scripts = []
@@ -124,7 +128,16 @@ def gen_graph_scripts(work, seed, tier):
             if h % 17 == 0 and cfg["tokenAuth"]:
                 tun.update({"mintXFF": "10.1.1.1, 10.9.9.9", "useXFF": "10.1.1.2"})  # another client address
             probe = allpk[rng.randrange(len(allpk))]
-            steps = [step_of(x, cfg, stable_hash(x + str(i) + str(h)), tun) for i, x in enumerate(path + [a, probe])]
+            seq = path + [a, probe]
+            # a script whose first allowed channel request must find nothing listening targets the closed port
+            firstyes = next((parse_tla_value(x) for x in seq if '"chan"' in x and '"no"' not in x), None)
+            if firstyes is not None and not firstyes.get("reach", True):
+                if cfg["sel"] == "roundrobin":
+                    cfg = dict(cfg, hosts=[["H1", ":", "PD"]])
+                tun.update({"hostPort": "PD", "entry": ["H1", ":", "PD"]})
+            elif tun["hostPort"] == "PD":
+                tun.update({"hostPort": "PA", "entry": ["H1", ":", "PA"]})
+            steps = [step_of(x, cfg, stable_hash(x + str(i) + str(h)), tun) for i, x in enumerate(seq)]
             transports = ["ws", "legacy"] if tier == "thorough" else [["ws", "legacy"][h % 2]]
             for tr in transports:
                 scripts.append({"id": "g%05d-%s" % (len(scripts), tr), "origin": "graph:%s/%s" % (c[1], a), "cfg": cfg,
@@ -137,10 +150,10 @@ def gen_random_scripts(seed, n, maxlen=14):
     rng = random.Random(seed * 7919 + 13)
     scripts = []
     canon = ['[k |-> "hs", cls |-> "valid", caps |-> %d]', '[k |-> "create", cls |-> "valid", cookieGood |-> TRUE]',
-             '[k |-> "auth", cls |-> "valid"]', '[k |-> "chan", cls |-> "valid", hostAllowed |-> "yes"]']
+             '[k |-> "auth", cls |-> "valid"]', '[k |-> "chan", cls |-> "valid", hostAllowed |-> "yes", reach |-> TRUE]']
     noise = ['[k |-> "data", cls |-> "valid"]', '[k |-> "keepalive", cls |-> "valid"]', '[k |-> "other", cls |-> "valid"]',
              '[k |-> "close", cls |-> "valid"]', '[k |-> "hs", cls |-> "trunc", caps |-> 2]', '[k |-> "create", cls |-> "valid", cookieGood |-> FALSE]',
-             '[k |-> "chan", cls |-> "valid", hostAllowed |-> "no"]', '[k |-> "auth", cls |-> "trunc"]', '[k |-> "chan", cls |-> "trunc", hostAllowed |-> "no"]',
+             '[k |-> "chan", cls |-> "valid", hostAllowed |-> "no", reach |-> TRUE]', '[k |-> "auth", cls |-> "trunc"]', '[k |-> "chan", cls |-> "trunc", hostAllowed |-> "no", reach |-> TRUE]',
              '[k |-> "create", cls |-> "trunc", cookieGood |-> FALSE]']
     for i in range(n):
         tokenAuth, smartCard = rng.random() < 0.6, rng.random() < 0.3
